@@ -1,0 +1,26 @@
+//go:build verif
+
+package engine
+
+// VerifSchedule lets a verification harness control the order in which the
+// workers of the parallel parser deliver their results. It is only compiled
+// with the build tag `verif`.
+var VerifSchedule struct {
+	// Before is called by a worker right before it sends its result.
+	Before func(batchIndex int)
+
+	// After is called by a worker right after its result has been received.
+	After func(batchIndex int)
+}
+
+func verifBeforeSend(batchIndex int) {
+	if f := VerifSchedule.Before; f != nil {
+		f(batchIndex)
+	}
+}
+
+func verifAfterSend(batchIndex int) {
+	if f := VerifSchedule.After; f != nil {
+		f(batchIndex)
+	}
+}
